@@ -262,6 +262,24 @@ def result_pipeline(cx: Cx, fn, paths: List[Path], p: Path, ret: Term, table=Non
                  and e.data.get('result') == lf.elem and e.data.get('func_term') is not None]
         fts = {e.data.get('func_term') for e in calls}
         if len(fts) != 1:
+            # the worker called directly, work item among its arguments: W(a, item, b) is partial(W, a, <third>=b)(item)
+            direct = [e for q in paths for e in q.events if e.kind == 'call' and e.data.get('target_kind') == 'pkg' and
+                      e.data.get('result') == lf.elem and len(e.data.get('targets', [])) == 1 and
+                      list(e.data.get('args', ())).count(v) == 1 and e.data.get('recv') is None]
+            synth = set()
+            for e in direct:
+                callee = e.data['targets'][0]
+                args_ = list(e.data.get('args', ()))
+                i = args_.index(v)
+                if len(args_) > len(callee.params) or any(isinstance(a, App) and a.fn == '*' for a in args_):
+                    continue
+                kw_ = dict(e.data.get('kw', ()))
+                for j in range(i + 1, len(args_)):
+                    kw_[callee.params[j]] = args_[j]
+                synth.add(App('call', (Sym('functools.partial'), Sym('<func ' + callee.qualname + '>')) + tuple(args_[:i]), tuple(sorted(kw_.items()))))
+            if len(synth) == 1:
+                fts = synth
+        if len(fts) != 1:
             return f"the kept element {lf.elem!r} is not the result of calling the worker on the work item {v!r}"
         F, W, x, via = next(iter(fts)), src, lf.elem, 'serial'
     if x != lf.elem:
